@@ -278,10 +278,10 @@ func Write(dir string, pkgs []*Pkg, casePrefixes []string) (*Batch, error) {
 			return nil, err
 		}
 		mainImports = append(mainImports, fmt.Sprintf("\t%s \"%s/cases/%s\"", p.Name, ModPath, p.Name))
-		mainCalls = append(mainCalls, fmt.Sprintf("\t%s.RunCases()", p.Name))
+		mainCalls = append(mainCalls, fmt.Sprintf("\tif only == \"\" || only == %q {\n\t\t%s.RunCases()\n\t}", p.Name, p.Name))
 	}
-	mainSrc := "//go:build !goose\n\npackage main\n\nimport (\n\t\"github.com/goose-lang/goose/machine/disk\"\n" + strings.Join(mainImports, "\n") +
-		"\n)\n\nfunc main() {\n\tdisk.Init(disk.NewMemDisk(30))\n" + strings.Join(mainCalls, "\n") + "\n}\n"
+	mainSrc := "//go:build !goose\n\npackage main\n\nimport (\n\t\"os\"\n\n\t\"github.com/goose-lang/goose/machine/disk\"\n" + strings.Join(mainImports, "\n") +
+		"\n)\n\nfunc main() {\n\tdisk.Init(disk.NewMemDisk(30))\n\tonly := os.Getenv(\"VB_ONLY\")\n" + strings.Join(mainCalls, "\n") + "\n}\n"
 	if err := core.WriteFile(filepath.Join(dir, "main.go"), mainSrc); err != nil {
 		return nil, err
 	}
@@ -295,6 +295,34 @@ func (b *Batch) RunGo(timeout time.Duration, env []string, extraBuild ...string)
 		return berr, ""
 	}
 	_, rerr := b.RunBin(bin, timeout, env)
+	if rerr != "" {
+		// one case that hangs or kills the process must not cost the results of every later package:
+		// run the packages that have missing results one at a time
+		rerr = ""
+		for _, p := range b.Pkgs {
+			complete := true
+			for _, cn := range b.Cases[p.Name] {
+				if _, ok := b.Results[p.Name][cn]; !ok {
+					complete = false
+				}
+			}
+			if complete {
+				continue
+			}
+			_, perr := b.RunBin(bin, timeout/2, append(append([]string{}, env...), "VB_ONLY="+p.Name))
+			if perr != "" {
+				first := ""
+				for _, cn := range b.Cases[p.Name] {
+					if _, ok := b.Results[p.Name][cn]; !ok {
+						first = cn
+						break
+					}
+				}
+				fmt.Fprintf(os.Stderr, "native run of package %s failed (%s); first case without a result: %s\n", p.Name, strings.SplitN(perr, "\n", 2)[0], first)
+				rerr = perr
+			}
+		}
+	}
 	return "", rerr
 }
 
